@@ -77,3 +77,8 @@ structure PSig where
   multMtu : Bool
 
 end P0f
+
+namespace P0f
+/-- `a in b` for `Flag` values: every member of `a` is in `b` -/
+def QSet.subsetOf (a b : QSet) : Bool := (a.inter b).beq a
+end P0f
